@@ -118,6 +118,8 @@ Def_none == {"none"}
 Miss_both == BOOLEAN
 Miss_no == {FALSE}
 
+\* diagnostic only: the result the repaired defects F19 / F20 used to produce, printed when it differs, so that a report can
+\* name the returning defect; it never excuses a difference
 Sigs == << [sig |-> "pairs-not-typed", d |-> [pairs |-> TRUE, tbl |-> FALSE]],
            [sig |-> "define-in-type-table", d |-> [pairs |-> FALSE, tbl |-> TRUE]] >>
 Alts(t) == LET e == Expected(t, NoDev) IN
